@@ -77,13 +77,16 @@ def read_swan(filename, dirorder=True, as_site=False):
             )
 
     if swanfile.is_grid:
+        ilon = np.searchsorted(np.unique(lons), lons)
+        ilat = np.searchsorted(np.unique(lats), lats)
         lons = sorted(np.unique(lons))
         lats = sorted(np.unique(lats))
-        arr = np.array(spec_list).reshape(
-            len(times), len(lons), len(lats), len(freqs), len(dirs)
+        arr = np.full((len(times), len(lats), len(lons), len(freqs), len(dirs)), np.nan)
+        arr[:, ilat, ilon] = np.array(spec_list).reshape(
+            len(times), len(ilon), len(freqs), len(dirs)
         )
         dset = xr.DataArray(
-            data=np.swapaxes(arr, 1, 2),
+            data=arr,
             coords=OrderedDict(
                 (
                     (attrs.TIMENAME, times),
@@ -165,7 +168,7 @@ def read_swan(filename, dirorder=True, as_site=False):
             {"units": "m^{2}.s", "_units": "m^{2}.s", "_variable_name": "VaDens"}
         )
 
-    return dset
+    return dset.sortby(attrs.TIMENAME)
 
 
 def read_swans(
